@@ -49,3 +49,12 @@ package command
 //@   ghost update @gzUncompress: unz = true
 //@   ghost update @gzUncompress: unzB = result0
 //@   assert @pb.Unmarshal: [decodes-right-bytes] arg1 == m && (comp0 ==> (unz && arg0 == unzB)) && (!comp0 ==> (!unz && arg0 == sub0))
+//
+// Decoders: fill the message passed as the second argument (and what it reaches); nothing else.
+// (Assumed: their bodies are one protobuf / gzip call each; see lib/protobuf.)
+//@ func Unmarshal
+//@   writes_arg 1
+//@ func UnmarshalLoadRequest
+//@   writes_arg 1
+//@ func UnmarshalLoadChunkRequest
+//@   writes_arg 1
